@@ -186,7 +186,7 @@ Proof.
 Qed.
 
 Lemma main_path_inv1 k pl s r s' e q v : main_path k pl s r = (s', (e, q)) ->
-  entry_fresh k s = true -> inv1 s ->
+  (c_l (r_im r) <> LTrue -> entry_fresh k s = true) -> inv1 s ->
   vw s = Some v -> c_del v = false ->
   r_ch r = ch s -> r_made r = made s -> r_now r = now s ->
   (c_l v = LTrue -> c_l (r_im r) = LTrue /\ PL (r_pc r)) ->
@@ -229,7 +229,7 @@ Proof.
     + assert (M0 : made s = 0%nat).
       { destruct (made s) as [|[|m]] eqn:Em; [reflexivity| |pose proof (i_a _ Inv); lia].
         exfalso. destruct (i_s _ Inv Em) as [C|[C|[C1 C2]]].
-        - exact (fresh_hit k r s H1 H3 Hf C Eh).
+        - exact (fresh_hit k r s H1 H3 (Hf Nl) C Eh).
         - exact (NoDead C).
         - exact (Nl (HB C1 C2)). }
       destruct (L3 Nl eq_refl) as [(Em & Ec & _)|(Em & Ec & _)].
@@ -248,11 +248,11 @@ Proof.
 Qed.
 
 Lemma reconcile_inv1 k pl s s' e q : reconcile k pl s = (s', (e, q)) ->
-  entry_fresh k s = true -> inv1 s -> inv1 s'.
+  rec_fresh k pl s = true -> inv1 s -> inv1 s'.
 Proof.
-  unfold reconcile. intros H Hf Inv.
+  unfold reconcile, rec_fresh, consults. intros H Hf Inv.
   destruct (vw s) as [v|] eqn:Ev; [|injection H as <- _ _; exact Inv].
-  destruct (negb (k_managed k)); [injection H as <- _ _; exact Inv|].
+  destruct (k_managed k); simpl in *; [|injection H as <- _ _; exact Inv].
   destruct (c_del v) eqn:Ed.
   { (* finalize *)
     apply finalize_sum in H. destruct H as (Fm & Fc & Fv & Fp).
@@ -274,13 +274,17 @@ Proof.
     - intros _. right. left. exact D'. }
   destruct (c_fin v) eqn:Efin.
   - (* the cached object carries the finalizer *)
+    rewrite ?Ed, ?Efin in Hf. simpl in Hf.
     eapply main_path_inv1; try eassumption; try reflexivity; simpl.
+    + intros Nl. destruct (lcond_eqb (c_l v) LTrue) eqn:E; [apply lcond_eqb_eq in E; congruence|exact Hf].
     + intros Hl. split; [exact Hl|]. exact (i_i _ Inv v Ev Hl).
     + intros (v0 & E0 & _ & [R|R]) _; rewrite Ev in E0; injection E0 as <-; [exact R|congruence].
     + intros Hl. split; [exists v; repeat split; auto|exact (i_i _ Inv v Ev Hl)].
   - simpl in H. destruct (eff_wr (pc s) (f_fin pl)) eqn:Ew.
     + destruct (pc s) as [p|] eqn:Ep; [|exfalso; unfold eff_wr in Ew; destruct (f_fin pl); discriminate].
+      rewrite ?Ed, ?Efin, ?Ep, ?Ew in Hf. simpl in Hf.
       eapply main_path_inv1; try eassumption; try reflexivity; simpl.
+      * intros Nl. destruct (lcond_eqb (c_l p) LTrue) eqn:E; [apply lcond_eqb_eq in E; congruence|exact Hf].
       * intros Hl. destruct (i_i _ Inv v Ev Hl) as [C|(p0 & Hp0 & Hl0)]; [rewrite Ep in C; discriminate|].
         rewrite Ep in Hp0. injection Hp0 as <-. split; [exact Hl0|].
         right. exists (cl_fin p true). split; [reflexivity|exact Hl0].
@@ -306,7 +310,7 @@ Proof.
 Qed.
 
 Lemma step_inv1 k s o s' x : step k s o = (s', x) -> is_restart o = false ->
-  (match o with Rec _ => entry_fresh k s = true | _ => True end) -> inv1 s -> inv1 s'.
+  (match o with Rec pl => rec_fresh k pl s = true | _ => True end) -> inv1 s -> inv1 s'.
 Proof.
   intros H Hr Hf Inv.
   destruct o; try discriminate;
